@@ -95,7 +95,7 @@ def _case(draw, max_rows=7):
                 src = left['rows'][draw(st.integers(0, nl - 1))]
                 for i in range(nk):
                     right['rows'][j][i] = src[i]
-    spec = dict(left=left, right=right, kind=kind, nk=nk, op=op, mode=draw(st.sampled_from(MODES)))
+    spec = dict(left=left, right=right, kind=kind, nk=nk, op=op, mode=draw(st.sampled_from(MODES)), again=draw(st.sampled_from([False, False, True])))
     if kind.startswith('callable'):
         spec['fns'] = [draw(st.sampled_from(FNS)) for _ in range(nk)]
     return spec
@@ -183,107 +183,118 @@ def run_join(spec):
         lkey = lambda r: tuple(r[c] for c in keynames)
         rkey = lambda r: tuple(f(r[s]) for s, f in zip(src, fs))
     pymode = (lambda a, b: (b, a)) if mode == 'swap' else mode
-    sx, sy = _snap(x), _snap(y)
-    limit = 6000 * (len(L) + len(R) + 2) ** 2
-    what = '%s(%s, %s, lcols=%s, rcols=%s, mode=%s)' % (op, short(dict(x), 200), short(dict(y), 200), kind if kind.startswith('callable') else lcols, rcols, mode)
-    from pyg_base import dictable
+    # a second pass on the SAME table objects after a key source column of x was reassigned in place: state kept on a table between calls
+    # (memoised groupings, cached rows) must not survive the assignment
+    for phase in range(2 if spec.get('again') and L else 1):
+        if phase == 1:
+            col = lc[0]
+            vals = [r[col] for r in L]
+            vals = vals[1:] + vals[:1]
+            for r, v in zip(L, vals):
+                r[col] = v
+            x[col] = list(vals)
+        sx, sy = _snap(x), _snap(y)
+        limit = 6000 * (len(L) + len(R) + 2) ** 2
+        what = '%s(%s, %s, lcols=%s, rcols=%s, mode=%s)%s' % (op, short(dict(x), 200), short(dict(y), 200), kind if kind.startswith('callable') else lcols, rcols, mode,
+                                                              ' [second call, after x[%r] was reassigned in place]' % lc[0] if phase else '')
+        from pyg_base import dictable
 
-    lother = [c for c in lc if c not in keynames]
-    rother = [c for c in rc if c not in keynames]
-    shared = [c for c in lother if c in rother]
+        lother = [c for c in lc if c not in keynames]
+        rother = [c for c in rc if c not in keynames]
+        shared = [c for c in lother if c in rother]
 
-    if op in ('join', 'mul'):
-        if op == 'mul':
-            res = call_fuel(what, limit, lambda: x * y)
-        elif lcols is None and rcols is None:
-            res = call_fuel(what, limit, lambda: x.join(y, mode=pymode))
-        else:
-            res = call_fuel(what, limit, lambda: x.join(y, lcols, rcols, mode=pymode))
-        eff_mode = None if op == 'mul' else mode
-        exp = Counter()
-        for l in L:
-            for r in R:
-                lk, rk = lkey(l), rkey(r)
-                if all(keq(a, b) for a, b in zip(lk, rk)):
-                    row = [(n, ('key',) + vtoken(v)) for n, v in zip(keynames, lk)]
-                    for c in lother:
-                        if c not in shared:
-                            row.append((c, token(l[c])))
-                    for c in rother:
-                        if c not in shared:
-                            row.append((c, token(r[c])))
-                    for c in shared:
-                        if eff_mode in ('l', 'left', 0):
-                            v = token(l[c])
-                        elif eff_mode in ('r', 'right', 1):
-                            v = token(r[c])
-                        elif eff_mode == 'swap':
-                            v = token((r[c], l[c]))
-                        else:
-                            v = token((l[c], r[c]))
-                        row.append((c, v))
-                    exp[tuple(sorted(row))] += 1
-        check(isinstance(res, dictable), '%s returned %s', what, type(res).__name__)
-        cols = list(res.keys())
-        lens = set(len(v) for v in dict(res).values())
-        check(len(lens) <= 1, '%s: result is not rectangular: %s', what, dict(res))
-        got = Counter()
-        for row in res:
-            got[tuple(sorted((c, (('key',) + vtoken(row[c])) if c in keynames else token(row[c])) for c in cols))] += 1
-        if got != exp:
-            missing = list((exp - got).elements())[:3]
-            extra = list((got - exp).elements())[:3]
-            raise Violation('%s: join differs from the nested-loop reference: %i rows expected, %i returned; missing %s; unexpected %s'
-                            % (what, sum(exp.values()), sum(got.values()), short(missing, 250), short(extra, 250)))
-        nmatch = sum(exp.values())
-    else:
-        if op == 'div':
-            res = call_fuel(what, limit, lambda: x / y)
-        elif lcols is None and rcols is None:
-            res = call_fuel(what, limit, lambda: x.xor(y))
-        else:
-            res = call_fuel(what, limit, lambda: x.xor(y, lcols, rcols))
-        check(isinstance(res, dictable), '%s returned %s', what, type(res).__name__)
-        unmatched = [l for l in L if not any(all(keq(a, b) for a, b in zip(lkey(l), rkey(r))) for r in R)]
-        exp = Counter(tuple(sorted((c, token(l[c])) for c in lc)) for l in unmatched)
-        cols = list(res.keys())
-        got = Counter(tuple(sorted((c, token(row[c])) for c in cols)) for row in res)
-        if got != exp:
-            raise Violation('%s: xor differs from the reference anti-join: expected %i rows %s, got %i rows %s'
-                            % (what, len(unmatched), short(sorted(exp.elements()), 250), len(res), short(sorted(got.elements()), 250)))
-        # partition law against the library's own join: every row of x is either in xor or matched in the join
-        if kind in ('shared', 'name', 'list'):
-            j = call_fuel('join for partition law, ' + what, limit, lambda: x.join(y, lcols, rcols) if lcols is not None else x.join(y))
-            jkeys = set(tuple(vtoken(v) for v in lkey(row)) for row in j) if len(j) else set()
-            xkeys = set(tuple(vtoken(v) for v in lkey(row)) for row in res) if len(res) else set()
-            for l in L:
-                k = tuple(vtoken(v) for v in lkey(l))
-                check((k in jkeys) != (k in xkeys), '%s: row with key %s of x lies in %s', what, lkey(l),
-                      'both x*y and x/y' if k in jkeys else 'neither x*y nor x/y')
-        nmatch = len(L) - len(unmatched)
-        # the mirrored spelling documented in xor's docstring: x.xor(y, mode='r') is what is in y but not in x
-        if spec['mode'] in ('r', 'right', 1):
-            what_r = what.replace('xor(', 'xor[mode=r](', 1)
-            if lcols is None and rcols is None:
-                res_r = call_fuel(what_r, limit, lambda: x.xor(y, mode=spec['mode']))
+        if op in ('join', 'mul'):
+            if op == 'mul':
+                res = call_fuel(what, limit, lambda: x * y)
+            elif lcols is None and rcols is None:
+                res = call_fuel(what, limit, lambda: x.join(y, mode=pymode))
             else:
-                res_r = call_fuel(what_r, limit, lambda: x.xor(y, lcols, rcols, mode=spec['mode']))
-            check(isinstance(res_r, dictable), '%s returned %s', what_r, type(res_r).__name__)
-            unmatched_r = [r for r in R if not any(all(keq(a, b) for a, b in zip(lkey(l), rkey(r))) for l in L)]
-            exp_r = Counter(tuple(sorted((c, token(r[c])) for c in rc)) for r in unmatched_r)
-            cols_r = list(res_r.keys())
-            got_r = Counter(tuple(sorted((c, token(row[c])) for c in cols_r)) for row in res_r)
-            if got_r != exp_r:
-                raise Violation("%s: differs from the rows of y without a partner in x: expected %i rows %s, got %i rows %s"
-                                % (what_r, len(unmatched_r), short(sorted(exp_r.elements()), 250), len(res_r), short(sorted(got_r.elements()), 250)))
-    check(_same(sx, x), '%s modified its left operand: now %s', what, dict(x))
-    check(_same(sy, y), '%s modified its right operand: now %s', what, dict(y))
-    # the result must not share its column lists with an operand: scribble over the result, then look at the operands again
-    for col, values in dict(res).items():
-        for i in range(len(values)):
-            values[i] = ('scribble', col, i)
-    check(_same(sx, x), '%s returned a table that shares storage with its left operand (writing into the result changed x: %s)', what, dict(x))
-    check(_same(sy, y), '%s returned a table that shares storage with its right operand (writing into the result changed y: %s)', what, dict(y))
+                res = call_fuel(what, limit, lambda: x.join(y, lcols, rcols, mode=pymode))
+            eff_mode = None if op == 'mul' else mode
+            exp = Counter()
+            for l in L:
+                for r in R:
+                    lk, rk = lkey(l), rkey(r)
+                    if all(keq(a, b) for a, b in zip(lk, rk)):
+                        row = [(n, ('key',) + vtoken(v)) for n, v in zip(keynames, lk)]
+                        for c in lother:
+                            if c not in shared:
+                                row.append((c, token(l[c])))
+                        for c in rother:
+                            if c not in shared:
+                                row.append((c, token(r[c])))
+                        for c in shared:
+                            if eff_mode in ('l', 'left', 0):
+                                v = token(l[c])
+                            elif eff_mode in ('r', 'right', 1):
+                                v = token(r[c])
+                            elif eff_mode == 'swap':
+                                v = token((r[c], l[c]))
+                            else:
+                                v = token((l[c], r[c]))
+                            row.append((c, v))
+                        exp[tuple(sorted(row))] += 1
+            check(isinstance(res, dictable), '%s returned %s', what, type(res).__name__)
+            cols = list(res.keys())
+            lens = set(len(v) for v in dict(res).values())
+            check(len(lens) <= 1, '%s: result is not rectangular: %s', what, dict(res))
+            got = Counter()
+            for row in res:
+                got[tuple(sorted((c, (('key',) + vtoken(row[c])) if c in keynames else token(row[c])) for c in cols))] += 1
+            if got != exp:
+                missing = list((exp - got).elements())[:3]
+                extra = list((got - exp).elements())[:3]
+                raise Violation('%s: join differs from the nested-loop reference: %i rows expected, %i returned; missing %s; unexpected %s'
+                                % (what, sum(exp.values()), sum(got.values()), short(missing, 250), short(extra, 250)))
+            nmatch = sum(exp.values())
+        else:
+            if op == 'div':
+                res = call_fuel(what, limit, lambda: x / y)
+            elif lcols is None and rcols is None:
+                res = call_fuel(what, limit, lambda: x.xor(y))
+            else:
+                res = call_fuel(what, limit, lambda: x.xor(y, lcols, rcols))
+            check(isinstance(res, dictable), '%s returned %s', what, type(res).__name__)
+            unmatched = [l for l in L if not any(all(keq(a, b) for a, b in zip(lkey(l), rkey(r))) for r in R)]
+            exp = Counter(tuple(sorted((c, token(l[c])) for c in lc)) for l in unmatched)
+            cols = list(res.keys())
+            got = Counter(tuple(sorted((c, token(row[c])) for c in cols)) for row in res)
+            if got != exp:
+                raise Violation('%s: xor differs from the reference anti-join: expected %i rows %s, got %i rows %s'
+                                % (what, len(unmatched), short(sorted(exp.elements()), 250), len(res), short(sorted(got.elements()), 250)))
+            # partition law against the library's own join: every row of x is either in xor or matched in the join
+            if kind in ('shared', 'name', 'list'):
+                j = call_fuel('join for partition law, ' + what, limit, lambda: x.join(y, lcols, rcols) if lcols is not None else x.join(y))
+                jkeys = set(tuple(vtoken(v) for v in lkey(row)) for row in j) if len(j) else set()
+                xkeys = set(tuple(vtoken(v) for v in lkey(row)) for row in res) if len(res) else set()
+                for l in L:
+                    k = tuple(vtoken(v) for v in lkey(l))
+                    check((k in jkeys) != (k in xkeys), '%s: row with key %s of x lies in %s', what, lkey(l),
+                          'both x*y and x/y' if k in jkeys else 'neither x*y nor x/y')
+            nmatch = len(L) - len(unmatched)
+            # the mirrored spelling documented in xor's docstring: x.xor(y, mode='r') is what is in y but not in x
+            if spec['mode'] in ('r', 'right', 1):
+                what_r = what.replace('xor(', 'xor[mode=r](', 1)
+                if lcols is None and rcols is None:
+                    res_r = call_fuel(what_r, limit, lambda: x.xor(y, mode=spec['mode']))
+                else:
+                    res_r = call_fuel(what_r, limit, lambda: x.xor(y, lcols, rcols, mode=spec['mode']))
+                check(isinstance(res_r, dictable), '%s returned %s', what_r, type(res_r).__name__)
+                unmatched_r = [r for r in R if not any(all(keq(a, b) for a, b in zip(lkey(l), rkey(r))) for l in L)]
+                exp_r = Counter(tuple(sorted((c, token(r[c])) for c in rc)) for r in unmatched_r)
+                cols_r = list(res_r.keys())
+                got_r = Counter(tuple(sorted((c, token(row[c])) for c in cols_r)) for row in res_r)
+                if got_r != exp_r:
+                    raise Violation("%s: differs from the rows of y without a partner in x: expected %i rows %s, got %i rows %s"
+                                    % (what_r, len(unmatched_r), short(sorted(exp_r.elements()), 250), len(res_r), short(sorted(got_r.elements()), 250)))
+        check(_same(sx, x), '%s modified its left operand: now %s', what, dict(x))
+        check(_same(sy, y), '%s modified its right operand: now %s', what, dict(y))
+        # the result must not share its column lists with an operand: scribble over the result, then look at the operands again
+        for col, values in dict(res).items():
+            for i in range(len(values)):
+                values[i] = ('scribble', col, i)
+        check(_same(sx, x), '%s returned a table that shares storage with its left operand (writing into the result changed x: %s)', what, dict(x))
+        check(_same(sy, y), '%s returned a table that shares storage with its right operand (writing into the result changed y: %s)', what, dict(y))
 
     # ---- classes
     lks = [tuple(vtoken(v) for v in lkey(l)) for l in L]
@@ -303,7 +314,7 @@ def run_join(spec):
                         nan_two_ids = True
                     if type(p) is not type(q) or (p != p and p is not q):
                         eq_not_identical = True
-    cls = ['op=' + op, 'kind=' + kind, 'nk=%i' % nk, 'mode=%s' % (mode,)]
+    cls = ['op=' + op, 'kind=' + kind, 'nk=%i' % nk, 'mode=%s' % (mode,)] + (['second_call_after_reassignment'] if spec.get('again') and L else [])
     if not L or not R:
         cls.append('empty_side')
     if L and R and (len(R) > 8 * len(L) or len(L) > 8 * len(R)):
@@ -329,6 +340,6 @@ SUBS = [
              'int/float twins, None; key spellings None/name/list/different names/callable left/callable right/[] (cross); modes None,l,r,0,1,callable; '
              'x.join(y), x*y, x.xor(y), x/y. Oracle: nested-loop reference compared as multisets, anti-join + partition law, operands unchanged (cell identity), '
              'fuel-bounded termination. non-trivial = many-to-many key or keys equal but not identical (int vs float, two NaN objects)',
-        floor=0.2, class_floors={'nan_keys_of_two_identities_match': 0.03, 'many_to_many': 0.1, 'op=xor': 0.1, 'lopsided_sizes': 0.08, 'side_of_64+_rows': 0.02}),
+        floor=0.2, class_floors={'nan_keys_of_two_identities_match': 0.03, 'many_to_many': 0.1, 'op=xor': 0.1, 'lopsided_sizes': 0.08, 'side_of_64+_rows': 0.02, 'second_call_after_reassignment': 0.15}),
 ]
 SUBS[0].qshards = 8
